@@ -62,9 +62,24 @@ def ack_result(I, loc):
     return loc['__ack_result']
 
 
+def head_at_call(I, loc):
+    """Instantiation of the ghost argument g_head at the real call sites (_acknowledge_settings, _local_settings_acked):
+    the callers keep no record of frame boundaries, so the only set they can name is 'every key with a pending
+    value'.  (With that choice the requires clause holds trivially; the clause 'every other key keeps its current
+    value' -- finding F13 -- is checked on the body for EVERY g_head and is not assumed by callers.)"""
+    import z3
+    so = I.heap.get(loc['self'])
+    m = I.heap.get(so.fields['_settings'])
+    ref = I.sym_value('smap:bool', 'g_head')
+    k = z3.Int('head!k')
+    I.heap.get(ref).dom = z3.Lambda([k], z3.And(z3.Select(m.dom, k), z3.Select(m.arrays['hi'], k) - z3.Select(m.arrays['lo'], k) > 1))
+    return ref
+
+
 modular(S + '.acknowledge')
 contract(S + '.acknowledge', props=['C11'],
-    args={}, setup=settings_setup, ghost={'g_head': 'smap:bool'}, modifies=[ack_summary], result=ack_result,
+    args={}, setup=settings_setup, ghost={'g_head': 'smap:bool'}, ghost_call={'g_head': head_at_call},
+    modifies=[ack_summary], result=ack_result,
     requires=['SETTINGS_OK_WEAK(self)',   # (the queue-position invariant of SETTINGS_OK is not needed here and only burdens the solver)
              
               # ghost g_head: the keys carried by the OLDEST unacknowledged SETTINGS frame; each has a pending value
